@@ -56,6 +56,8 @@ pub struct AInner {
     pub lp_calls: usize,
     pub fault_lp: Option<usize>,
     pub fault_at: Option<usize>,
+    /// number of consecutive radio calls that fail from `fault_at` on (0 and 1: a single call)
+    pub fault_burst: usize,
     pub tx_done_ms: u32,
     pub lead_ms: u32,
     pub buffer_ms: u32,
@@ -69,7 +71,7 @@ impl AInner {
     fn fault(&mut self) -> bool {
         let k = self.calls;
         self.calls += 1;
-        self.fault_at == Some(k)
+        matches!(self.fault_at, Some(a) if k >= a && k < a + self.fault_burst.max(1))
     }
 }
 
@@ -237,6 +239,9 @@ pub struct Script {
     pub rxc2: Vec<Frame>,
     /// index of the radio call (0-based, within this public call) that fails
     pub fault_at: Option<usize>,
+    /// the radio stays down for this many consecutive calls from `fault_at` on (0 / 1: one call)
+    #[serde(default)]
+    pub fault_burst: usize,
     /// the n-th low_power() call of this public call fails (a position that does not shift when a window
     /// hears one more frame)
     #[serde(default)]
@@ -294,6 +299,7 @@ impl<const PW: u8, const GAIN: i8, const N: usize> ACore<PW, GAIN, N> {
             lp_calls: 0,
             fault_lp: None,
             fault_at: None,
+            fault_burst: 1,
             tx_done_ms: 0,
             lead_ms: cfg.offset_ms.unsigned_abs(),
             buffer_ms: cfg.duration_ms.min(cfg.offset_ms.unsigned_abs()),
@@ -348,6 +354,7 @@ impl<const PW: u8, const GAIN: i8, const N: usize> ACore<PW, GAIN, N> {
         }
         g.conts.push_back(ContItem::End);
         g.fault_at = s.fault_at;
+        g.fault_burst = s.fault_burst;
         g.fault_lp = s.fault_low_power;
         g.lp_calls = 0;
         g.calls = 0;
@@ -399,6 +406,7 @@ impl<const PW: u8, const GAIN: i8, const N: usize> ACore<PW, GAIN, N> {
                         g.conts.push_back(ContItem::Frame(f.clone()));
                     }
                     g.fault_at = *fault_at;
+                    g.fault_burst = 1;
                     g.calls = 0;
                     // idle Class C listening uses the RX2 parameters; the size limit is taken
                     // from the configuration the device itself reports for RXC
